@@ -67,8 +67,8 @@ mod imp {
     pub struct Counting;
 
     const PAGE: usize = 65536;
-    const HEAP_PAGES: usize = 1024; // 64 MiB
-    const NCLASS: usize = 28;
+    const HEAP_PAGES: usize = 8192; // 512 MiB
+    const NCLASS: usize = 30;
 
     static mut BASE: usize = 0;
     static mut TOP: usize = 0;
@@ -116,6 +116,9 @@ mod imp {
             let al = sz.min(PAGE);
             let p = (TOP + al - 1) & !(al - 1);
             if p + sz > END {
+                // the harness ran out of its own heap: tell the host, so the
+                // trap that follows is not mistaken for a memchr fault
+                crate::host::write_line("{\"t\":\"harness-oom\"}");
                 return core::ptr::null_mut();
             }
             TOP = p + sz;
